@@ -17,8 +17,8 @@ QUICK = {
 THOROUGH = {
     "exhaustive": [("1sess-2mbox-4msgs-depth8", dict(depth=8, maxid=4, sess=("A",), mbox=("inbox", "b"), acts=ALL)),
                    ("2sess-1mbox-5msgs-depth7", dict(depth=7, maxid=5))],
-    "simulate": [("2mbox", dict(mbox=("inbox", "b"), maxid=8, maxpend=8, sets="SetsMedium", acts=ALL), 1200, 32)],
-    "random": 1500,
+    "simulate": [("2mbox", dict(mbox=("inbox", "b"), maxid=8, maxpend=8, sets="SetsMedium", acts=ALL), 800, 32)],
+    "random": 800,
     "gen": dict(length=50, weights={"append": 10, "deliver": 8, "expunge": 10, "uidexpunge": 5, "copy": 6, "move": 8,
                                     "restart": 3, "rename": 3, "create": 2, "uidprobe": 8, "store": 10, "poll": 8,
                                     "search": 0, "status": 1},
